@@ -1,5 +1,6 @@
 import RallyModel.RaceCtl
 import Drivers.Util
+import Drivers.Retry
 open Lean DUtil
 
 namespace Drivers.RaceCtl
@@ -49,6 +50,59 @@ def handle (op : String) (a : Json) : Except String Json := do
         pure (poll sd c f)
       else pure (pollTaskExecutor f)
     return ok (arr (acts.map fun x => Json.str (name x))) (acts.filter (·.isOutcome) |>.map name)
+  | "prep-run" =>
+    let ps ← a.getObjValAs? (Array Json) "procs"
+    let procs ← ps.toList.mapM fun j => do
+      let sr ← j.getObjValAs? Bool "seed_raises"
+      let tf ← j.getObjValAs? (Array Bool) "task_fails"
+      pure ({ seedRaises := sr, taskFails := tf.toList } : Proc)
+    match prepRun true procs with
+    | .prepared => return ok (Json.mkObj [("outcome", Json.str "prepared"), ("hops", toJson (0 : Nat))]) ["prep:prepared"]
+    | .failed h => return ok (Json.mkObj [("outcome", Json.str "failed"), ("hops", toJson h)]) [s!"prep:failed-{h}-hops"]
+  | "prep-handle" =>
+    let st ← match (← a.getObjValAs? String "status") with
+      | "none" => pure PrepStatus.none | "initializing" => pure PrepStatus.initializing | "running" => pure PrepStatus.running
+      | "complete" => pure PrepStatus.complete
+      | x => throw s!"unknown status {x}"
+    let stName : PrepStatus → String
+      | .none => "none" | .initializing => "initializing" | .running => "running" | .complete => "complete"
+    let ev ← match (← a.getObjValAs? String "event") with
+      | "failure" => pure PrepEv.benchmarkFailure
+      | "poison" => pure PrepEv.poison
+      | "ready" => do pure (PrepEv.readyForWork (← a.getObjValAs? Bool "tasks_left"))
+      | "idle" => do
+        let last ← a.getObjValAs? Bool "last"
+        let next ← match (← a.getObjValAs? String "next") with
+          | "none-left" => pure NextProc.noneLeft | "seeds" => pure NextProc.seeds | "raises" => pure NextProc.raises
+          | x => throw s!"unknown next {x}"
+        pure (PrepEv.workerIdle last next)
+      | x => throw s!"unknown event {x}"
+    let sendName : PrepSend → String
+      | .forwardToDriver => "forward-to-driver" | .failureToDriver => "failure-to-driver" | .failureToSender => "failure-to-sender"
+      | .doTask => "do-task" | .doNothing => "do-nothing" | .startTaskLoop => "start-task-loop" | .trackPrepared => "track-prepared"
+    let (sends, st') := prepHandle st ev
+    return ok (Json.mkObj [("sends", arr (sends.map fun x => Json.str (sendName x))), ("status", Json.str (stName st'))]) (sends.map sendName)
+  | "exec-single" | "retried-request" =>
+    let abort ← a.getObjValAs? Bool "abort"
+    let resName : ExecRes → String
+      | .sample true => "sample-ok" | .sample false => "sample-failed" | .assertionError => "assertion-error" | .setupError => "setup-error"
+      | .propagates => "propagates"
+    if op == "exec-single" then
+      let o ← match (← a.getObjValAs? String "out") with
+        | "tuple2" => pure RunOut.tuple2 | "dict-success" => pure RunOut.dictSuccess | "dict-no-key" => pure RunOut.dictNoKey
+        | "dict-fail" => pure RunOut.dictFail | "other-value" => pure RunOut.otherValue | "conn-error-exact" => pure RunOut.connErrorExact
+        | "conn-error-sub" => pure RunOut.connErrorSub | "conn-timeout" => pure RunOut.connTimeout | "transport-other" => pure RunOut.transportOther
+        | "api-error" => pure RunOut.apiError | "key-error" => pure RunOut.keyError | "other-exc" => pure RunOut.otherExc
+        | x => throw s!"unknown runner outcome {x}"
+      let r := execSingle abort o
+      return ok (Json.str (resName r)) [resName r]
+    else
+      let p ← Drivers.Retry.getParams a
+      let outs ← Drivers.Retry.getOuts a
+      let calls := (_root_.Retry.retry p outs).calls
+      match retriedRequest abort p outs with
+      | some r => return ok (Json.mkObj [("result", Json.str (resName r)), ("calls", toJson calls)]) [s!"retried:{resName r}", s!"attempts:{min calls 4}"]
+      | none => return ok (Json.mkObj [("result", Json.str "pending"), ("calls", toJson calls)]) ["retried:pending"]
   | _ => throw s!"unknown op {op}"
 
 end Drivers.RaceCtl
